@@ -312,6 +312,17 @@ impl SimWorld {
         ctx.in_callbacks.set(ctx.in_callbacks.get() + 1);
         ctx.max_in_callbacks.set(ctx.max_in_callbacks.get().max(ctx.in_callbacks.get()));
         let guard = InCb(Rc::clone(&ctx));
+        // (a World constructor may log as well: it runs inside the before hook's or the first step's span)
+        let log_n = |n: u8| {
+            if ctx.emit_logs {
+                for _ in 0..n.min(4) {
+                    let t = format!("log{}", ctx.new_token());
+                    ctx.cb_log.borrow_mut()[idx].log_tokens.push(t.clone());
+                    emit_log(&t);
+                }
+            }
+        };
+        log_n(beh.logs.0);
         for d in &beh.awaits {
             if *d == 0 {
                 ctx.core.yield_now().await;
@@ -319,6 +330,7 @@ impl SimWorld {
                 ctx.core.sleep(*d, LABEL_USER).await;
             }
         }
+        log_n(beh.logs.1);
         let exit = ctx.core.now_ns();
         ctx.core.progress();
         drop(guard);
